@@ -269,7 +269,7 @@ impl Search {
 
     /// A live node in local state `lid`: from the thread's cache, or rebuilt by replaying one
     /// recorded input history, every step of which is re-validated against the memo.
-    fn take_live(&self, lid: LId) -> LiveNode {
+    pub fn take_live(&self, lid: LId) -> LiveNode {
         let cached = CACHE.with(|c| {
             let mut c = c.borrow_mut();
             if c.0 != self.id {
@@ -307,7 +307,7 @@ impl Search {
         ln
     }
 
-    fn put_live(&self, lid: LId, ln: LiveNode) {
+    pub fn put_live(&self, lid: LId, ln: LiveNode) {
         CACHE.with(|c| {
             let mut c = c.borrow_mut();
             if c.1.len() >= 40 {
